@@ -98,6 +98,7 @@ CHECKS = {
         "subchecks": [
             R("TestC06Attest", 1500, 6000),
             E("TestC06PositionSweep"),
+            E("TestC06ChainTime"),
             R("TestC06RealDER", 200, 800, ts=4),
         ],
     },
@@ -170,6 +171,7 @@ CHECKS = {
         "assumptions": ["golang.org/x/crypto/ssh/agent server produces the replies of standard requests", "allocation is measured with runtime.MemStats.TotalAlloc around the call (threshold 8 MiB)"],
         "subchecks": [
             E("TestC12ShortFrames"),
+            E("TestC12Sizes"),
             R("TestC12Stream", 5000, 50000),
             R("TestC12StreamReal", 300, 2000, ts=8),
             F("FuzzC12Stream", "90s"),
